@@ -23,7 +23,8 @@ PROPS = {
     "C02": {"scenarios": ["roundtrip.json", "roundtrip.fide", "roundtrip.glencoe",
                           "roundtrip.afm", "roundtrip.uvl", "third-party", "uvl-peer",
                           "roundtrip.mixed", "serialise"]},
-    "C04": {"scenarios": ["uvl-peer", "uvl-peer", "roundtrip.uvl", "threads.uvl-docs"]},
+    "C04": {"scenarios": ["uvl-peer", "uvl-peer", "roundtrip.uvl", "uvl-peer",
+                          "threads.uvl-docs"]},
     "C05": {"scenarios": ["roundtrip.json", "roundtrip.json", "roundtrip.json",
                           "roundtrip.mixed", "threads.json"]},
     "C06": {"scenarios": ["roundtrip.afm", "roundtrip.afm", "roundtrip.afm", "roundtrip.mixed",
